@@ -38,7 +38,7 @@ ALLOPS = ["AddHeading", "SetStyle", "AddStyle", "ModifyStyle", "RemoveStyle", "G
           "Reopen", "OpenForeign", "Markdown", "AddParagraph", "AddHeader", "AddFooter", "AddTable"]
 
 # argument classes
-SMALL = dict(Lv={2, 4}, Maxes={3}, StyIds={"Quote", "C1", "Zz9"}, AddIds={"C1"}, ModIds={"Heading2", "C1"}, RmIds={"Heading2", "C1"},
+SMALL = dict(Lv={2, 9}, Maxes={3}, StyIds={"Quote", "C1", "Zz9"}, AddIds={"C1"}, ModIds={"Heading2", "C1"}, RmIds={"Heading2", "C1"},
              Tpls={"TableGrid"}, TblIds={"ab", "TS1"}, ListTypes={"bullet", "number"}, Shapes={"lists", "toc"}, Kinds={"all"},
              ViasC={"AddStyle"}, HowsC={"mutate", "replace"}, FreshC={True})
 WIDE = dict(Lv=set(range(1, 10)), Maxes={1, 3, 9}, StyIds={"Quote", "Title", "Heading2", "C1", "Q1", "F1", "TOC2", "Zz9"},
@@ -63,7 +63,7 @@ def gencfg(ctx, name, ops, args, depth):
 # focused alphabets explored exhaustively deeper than the whole alphabet:
 # (name, ops, argument classes, quick depth (0 = thorough only), thorough depth)
 GROUPS = [
-    ("styles", ["AddStyle", "ModifyStyle", "RemoveStyle", "SetStyle", "AddHeading", "Save", "Reopen", "OpenForeign"],
+    ("styles", ["AddStyle", "ModifyStyle", "RemoveStyle", "SetStyle", "AddHeading", "Save", "SaveFile", "Reopen", "OpenForeign"],
      dict(SMALL, Lv={2}, StyIds={"C1"}, ModIds={"C1", "Heading2"}, RmIds={"C1"}, Shapes={"plain"}, HowsC={"replace"}, FreshC={False}), 3, 4),
     ("toc", ["AddHeading", "GenerateTOC", "AutoGenerateTOC", "UpdateTOC", "TOCEntry", "RemoveStyle", "Reopen", "OpenForeign", "Markdown"],
      dict(SMALL, Lv={2}, Maxes={3}, RmIds={"14"}, Shapes={"toc"}, Kinds={"heads"}, FreshC={False}), 3, 4),
